@@ -259,7 +259,7 @@ func init() {
 	RegisterProbe("c03-mkdir-below-file", c03Probe(1, opWrite("a"), opMkdir("a/b")))
 	Register(&Engine{
 		Prop: "C03", Name: "fsdiff/invariants", Run: runC03,
-		Trials: map[string]int{"quick": 4000, "thorough": 200000},
+		Trials: map[string]int{"quick": 30000, "thorough": 400000},
 		Rule:   "seeded histories (1-20 steps, incl. removing/renaming the root, renaming into the own subtree, creating below regular files) on mem.FS, keyvalue.FS over sharing/copying SimStore (listing order permuted), mount.FS over 2-3 mem.FS and a Sub view; after every mutating step the tree invariants are evaluated over the closure of all paths up to depth 3 over {a,b,c} plus everything listings reveal, and over the SimStore key set; non-trivial = at least one successful mutation; distinct = event-log hash",
 		Components: map[string][]string{
 			"real": {"mem.FS", "keyvalue.FS", "mount.FS", "hackpadfs.Sub", "package helpers"},
